@@ -18,6 +18,10 @@
 //!                                D <id> <frames> <stack>             `(#%verif-stack-depth)` evaluated next on the engine
 //!                                Q <id> same | <hex of the probe's result>      the fixed probe program, same engine
 //!                              a probe that differs makes the harness continue on a fresh engine (record `N <id>`).
+//!        C <id> <hex> [<hex2> ..] callback family: evaluate the text; after an error: `L <id> same|<hex>` (the let-probe),
+//!                              the text again, `D`, `Q`, then the handled variant hex2.. (one evaluation each, the last one's value counts): `W <id> <hex of its value>` and
+//!                              `E <id> <frames> <stack>` (depth after that evaluation), `U <id> ok|err|panic <frames> <stack>`
+//!                              (an unhandled error after handled ones, depth after it)
 //!        M <id> <hex>          as T, but the text is written to a file under $C07_MODS and evaluated as a module:
 //!                              `(require "<file>")`
 //!        X <id> <hex>          evaluate, record `V <id> <hex of the values, Display, separated by U+001F>` (or R err/panic)
@@ -120,6 +124,35 @@ const IDX_HELPER: &str = r#"
        (if (< x 49)
            (f ((car e)) (c07-didx (quotient x 7) (cdr e)) (c07-didx (remainder x 7) (cdr e)))
            (f ((car e)) (c07-didx (quotient (- x 49) 3) (cdr e)) (vector-ref c07-xvals (remainder (- x 49) 3)))))]))
+;; mode 3 (aliased arguments, arities 3..5): every argument slot holds the collection V, a second instance W of the
+;; same constructor, or an index derived from the length.  k = collection * b^arity + x, the digits of x in base
+;; b = m + 2 choose the slots (0 = V, 1 = W, 2.. = index), m = 7 index values for arity 3 and 4 (0 1 len-1 len) for
+;; arities 4 and 5.  Admitted: one or two collection slots, W only after V (V twice = the same object twice).
+(define (c07-didx-m m d len)
+  (if (= m 7) (c07-didx d len) (cond [(= d 0) 0] [(= d 1) 1] [(= d 2) (- len 1)] [else len])))
+(define (c07-count-digit x b arity d)
+  (let loop ((i 0) (x x) (n 0))
+    (if (= i arity) n (loop (+ i 1) (quotient x b) (if (= (remainder x b) d) (+ n 1) n)))))
+(define (c07-first-digit x b arity d)
+  (let loop ((i 0) (x x))
+    (cond [(= i arity) arity] [(= (remainder x b) d) i] [else (loop (+ i 1) (quotient x b))])))
+(define (c07-alias-admitted? x b arity)
+  (let ((nv (c07-count-digit x b arity 0)) (nw (c07-count-digit x b arity 1)))
+    (if (< nv 1)
+        #f
+        (if (> (+ nv nw) 2) #f (< (c07-first-digit x b arity 0) (c07-first-digit x b arity 1))))))
+(define (c07-alias-call f arity k fresh)
+  (let* ((m (if (= arity 3) 7 4)) (b (+ m 2)) (per (expt b arity))
+         (e (vector-ref fresh (quotient k per))) (x (remainder k per)))
+    (if (not (c07-alias-admitted? x b arity))
+        #f
+        (let* ((v ((car e))) (w ((car e))) (len (cdr e))
+               (slot (lambda (i) (let ((d (remainder (quotient x (expt b i)) b)))
+                                   (cond [(= d 0) v] [(= d 1) w] [else (c07-didx-m m (- d 2) len)])))))
+          (cond
+            [(= arity 3) (f (slot 0) (slot 1) (slot 2))]
+            [(= arity 4) (f (slot 0) (slot 1) (slot 2) (slot 3))]
+            [else (f (slot 0) (slot 1) (slot 2) (slot 3) (slot 4))])))))
 "#;
 
 fn make_fresh_src() -> String {
@@ -165,6 +198,40 @@ const PROBE: &str = r#"
 c07-probe-result
 "#;
 const PROBE_EXPECTED: &str = "(42 1 2 500500 handled handled2 handled3 2 2 7 2 (1 4 9) 9 \"a1/2\" (1 kept))";
+
+/// The let-probe: a top-level `let*` / `let` with several variables and calls.  Top-level `let` variables are addressed
+/// relative to the start of the operand stack, so operands that a failed evaluation left behind show up as wrong values;
+/// the depth hook is read inside, so that the residue is seen before a successful evaluation clears it.  The expected
+/// result is whatever a fresh engine answers (computed when the harness starts).
+const LET_PROBE: &str = r#"
+(let* ((a (c07-keep-fn 5)) (b (+ (car a) 1)) (c (list a b)))
+  (let ((d (c07-keep-fn b)) (e (#%verif-stack-depth)) (f (length c)))
+    (list a b c d e f)))
+"#;
+static LET_EXPECTED: std::sync::OnceLock<String> = std::sync::OnceLock::new();
+
+fn let_probe(engine: &mut Engine) -> String {
+    let got = match eval(engine, LET_PROBE.to_string()) {
+        Out::Ok(v) => v.last().map(|x| format!("{}", x)).unwrap_or_default(),
+        Out::Err(e) => format!("err {}", e),
+        Out::Panic(p) => format!("panic {}", p),
+    };
+    let exp = LET_EXPECTED.get_or_init(|| {
+        let mut fresh = new_engine();
+        match eval(&mut fresh, LET_PROBE.to_string()) {
+            Out::Ok(v) => v.last().map(|x| format!("{}", x)).unwrap_or_default(),
+            _ => {
+                emit("FATAL the let-probe fails on a fresh engine");
+                std::process::exit(5);
+            }
+        }
+    });
+    if &got == exp {
+        "same".to_string()
+    } else {
+        hex(format!("{} (expected {})", got, exp).as_bytes())
+    }
+}
 
 // ------------------------------------------------------------------------------------------- panics
 
@@ -454,6 +521,88 @@ fn run_texts(jobs: Vec<String>, t0: Instant) {
                 engine = new_engine();
                 set_controller(&engine);
             }
+            "C" if f.len() >= 3 => {
+                // callback family: `C <id> <hex text> [<hex handled variant>]`.  The text raises an error inside a
+                // callback of a native higher-order procedure (no handler).  After the error: the let-probe (sees
+                // stale operands as wrong values), the same text again, then the depth hook and the probe; then the
+                // variant in which a handler installed with call-with-exception-handler catches the error: its value
+                // (W) and the depth after that successful evaluation (E).
+                let id = f[1];
+                let text = String::from_utf8_lossy(&unhex(f[2])).into_owned();
+                emit(&format!("B {}", id));
+                set_step(&format!("T {}", id), t0);
+                INTERRUPT_WANTED.store(true, Ordering::SeqCst);
+                RUNNING.store(true, Ordering::SeqCst);
+                let r = eval(&mut engine, text.clone());
+                RUNNING.store(false, Ordering::SeqCst);
+                if let Some(c) = CONTROLLER.lock().unwrap().as_ref() {
+                    (c.1)();
+                }
+                report_other_panics(id);
+                match &r {
+                    Out::Ok(v) => emit(&format!("R {} ok {}", id, v.len())),
+                    Out::Err(e) => emit(&format!("R {} err {}", id, e)),
+                    Out::Panic(p) => emit(&format!("R {} panic {}", id, p)),
+                }
+                let mut restart = matches!(r, Out::Panic(_));
+                if matches!(r, Out::Err(_)) {
+                    set_step(&format!("T {} (probe)", id), t0);
+                    INTERRUPT_WANTED.store(false, Ordering::SeqCst);
+                    RUNNING.store(true, Ordering::SeqCst);
+                    let l = let_probe(&mut engine);
+                    emit(&format!("L {} {}", id, l));
+                    let again = eval(&mut engine, text);
+                    let d = depth(&mut engine);
+                    emit(&format!("D {} {}", id, d));
+                    if !matches!(again, Out::Err(_)) {
+                        emit(&format!("S {} the second evaluation of the same text did not fail", id));
+                    }
+                    let q = probe(&mut engine);
+                    emit(&format!("Q {} {}", id, q));
+                    if f.len() > 4 {
+                        // (the definitions of the handled variant are evaluations of their own: procedures of one
+                        // program may be inlined into each other, which changes the frames that exist)
+                        // fields: definitions.., the handled evaluation (W, E), `-` or an evaluation in which an
+                        // unhandled error follows the handled ones (U = depth after it)
+                        let n_defs = f.len().saturating_sub(2).max(3);
+                        for h in &f[3..n_defs] {
+                            let _ = eval(&mut engine, String::from_utf8_lossy(&unhex(h)).into_owned());
+                        }
+                        let handled = String::from_utf8_lossy(&unhex(f[f.len() - 2])).into_owned();
+                        match eval(&mut engine, handled) {
+                            Out::Ok(v) => emit(&format!("W {} {}", id, hex(v.last().map(|x| format!("{}", x)).unwrap_or_default().as_bytes()))),
+                            Out::Err(e) => emit(&format!("W {} {}", id, hex(format!("err {}", e).as_bytes()))),
+                            Out::Panic(p) => {
+                                emit(&format!("W {} {}", id, hex(format!("panic {}", p).as_bytes())));
+                                restart = true;
+                            }
+                        }
+                        let d2 = depth(&mut engine);
+                        emit(&format!("E {} {}", id, d2));
+                        if d2 != "0 0" {
+                            restart = true;
+                        }
+                        if f[f.len() - 1] != "-" {
+                            let then_unhandled = String::from_utf8_lossy(&unhex(f[f.len() - 1])).into_owned();
+                            let ru = eval(&mut engine, then_unhandled);
+                            let d3 = depth(&mut engine);
+                            emit(&format!("U {} {} {}", id, match ru { Out::Ok(_) => "ok", Out::Err(_) => "err", Out::Panic(_) => "panic" }, d3));
+                            if d3 != "0 0" || matches!(ru, Out::Panic(_)) {
+                                restart = true;
+                            }
+                        }
+                    }
+                    RUNNING.store(false, Ordering::SeqCst);
+                    if q != "same" || l != "same" || d != "0 0" {
+                        restart = true;
+                    }
+                }
+                if restart {
+                    engine = new_engine();
+                    set_controller(&engine);
+                    emit(&format!("N {}", id));
+                }
+            }
             "T" | "X" | "M" if f.len() >= 2 => {
                 let id = f[1];
                 // (an empty text has an empty hex field)
@@ -570,6 +719,7 @@ const SWEEP: &str = r#"
         (begin
           (cond
             [(= mode 2) (c07-idx-call f arity k fresh)]
+            [(= mode 3) (c07-alias-call f arity k fresh)]
             [(= arity 0) (f)]
             [(= arity 1) (f (at k))]
             [(= arity 2) (f (at (quotient k n)) (at (remainder k n)))]
@@ -593,6 +743,7 @@ const SWEEP_MODULE: &str = r#"
         (begin
           (cond
             [(= mode 2) (c07-idx-call f arity k fresh)]
+            [(= mode 3) (c07-alias-call f arity k fresh)]
             [(= arity 0) (f)]
             [(= arity 1) (f (at k))]
             [(= arity 2) (f (at (quotient k n)) (at (remainder k n)))]
@@ -830,6 +981,7 @@ fn main() {
             println!("{}", PROBE);
             println!(";;; expected\n{}", PROBE_EXPECTED);
             println!(";;; prelude\n{}\n{}", PRELUDE, DEFINE_K);
+            println!(";;; let-probe\n{}", LET_PROBE);
             return;
         }
         "texts" | "builtins" | "phase" => {}
